@@ -29,6 +29,8 @@ fn dispatch(op: &str, args: &[Sexp]) -> String {
         "rawproto.import" => crate::props::c14::op_import(args),
         "rawgds.export" => crate::props::c0607::op_export(args),
         "gdsraw.import" => crate::props::c0607::op_import(args),
+        "place" => crate::props::c09::op_place(args),
+        "place.array" => crate::props::c09::op_array(args),
         "tf.apply" => crate::props::c12::op_apply(args),
         "tf.general" => crate::props::c12::op_general(args),
         "raw.flatten" => crate::props::c12::op_flatten(args),
